@@ -70,20 +70,9 @@ impl<TLocation> NonConstantValueInner<TLocation> {
                 format!("l_{int_value}").replace('-', "n")
             }
             NonConstantValueInner::Boolean(bool) => format!("l_{bool}"),
-            NonConstantValueInner::String(string) => format!(
-                "s_{}",
-                string
-                    .lookup()
-                    .chars()
-                    .map(|c| match c {
-                        'A'..='Z' | 'a'..='z' | '0'..='9' | '_' => c,
-                        // N.B. This clearly isn't correct, the string can (for example) include
-                        // spaces, which would break things.
-                        // TODO get a solution or validate
-                        _ => '_',
-                    })
-                    .collect::<String>(),
-            ),
+            NonConstantValueInner::String(string) => {
+                format!("s_{}", string_alias_chars(string.lookup()))
+            }
             // Also not correct
             NonConstantValueInner::Float(f) => format!("l_{}", f.as_float()),
             NonConstantValueInner::Null => "l_null".to_string(),
@@ -127,6 +116,41 @@ impl<TLocation> NonConstantValueInner<TLocation> {
             _ => vec![],
         }
     }
+}
+
+/// The characters of a string literal as they appear in an alias: every character that is not
+/// a word character becomes `_`. The literal is written verbatim into the query text and into
+/// the generated JavaScript, so the server and the runtime see its escape sequences processed
+/// (`\n` is a line feed, `\u0041` is `A`); the alias is computed from that value, as the
+/// runtime does.
+fn string_alias_chars(raw: &str) -> String {
+    let mut alias = String::new();
+    let mut chars = raw.chars();
+    while let Some(c) = chars.next() {
+        let c = match c {
+            '\\' => match chars.next() {
+                Some('u') => {
+                    let hex = chars.by_ref().take(4).collect::<String>();
+                    u32::from_str_radix(&hex, 16)
+                        .ok()
+                        .and_then(char::from_u32)
+                        .unwrap_or('_')
+                }
+                // \b \f \n \r \t are control characters
+                Some('b' | 'f' | 'n' | 'r' | 't') | None => '_',
+                Some(escaped) => escaped,
+            },
+            c => c,
+        };
+        alias.push(match c {
+            'A'..='Z' | 'a'..='z' | '0'..='9' | '_' => c,
+            // N.B. This clearly isn't correct, the string can (for example) include
+            // spaces, which would break things.
+            // TODO get a solution or validate
+            _ => '_',
+        });
+    }
+    alias
 }
 
 impl<TLocation: Copy> From<ConstantValueInner<TLocation>> for NonConstantValueInner<TLocation> {
